@@ -418,8 +418,12 @@ where
     // because it is not known in advance how many records each peer receives. We could've set
     // the channel capacity to be indeterminate, but it could be less efficient in using our most
     // precious resource - network.
-    let ctx =
-        ctx.set_total_records(TotalRecords::specified(input_len).unwrap_or(TotalRecords::ONE));
+    // The limit is one record above the input size, because a channel closes on its own when it
+    // reaches the limit. A channel that carried `input_len` records must stay open until the input
+    // is known to end there: if it yields more items instead, this shard fails, and the receiver
+    // must not take the records sent so far for the complete set. Channels are closed explicitly
+    // below, once the input is exhausted.
+    let ctx = ctx.set_total_records(TotalRecords::specified(input_len.saturating_add(1))?);
     let my_shard = ctx.shard_id();
 
     // Open communication channels to all shards on this helper and keep track of records sent
